@@ -925,9 +925,13 @@ class Interp:
         key = (fn.module.name, fn.qualname)
         if key in self.contracts:
             return self.contracts[key](self, args, kwargs)
+        if key not in self.functions_seen:
+            self._check_decorators(fn)
         self.functions_seen[key] = fn
         if self.call_depth > 60:
             raise Unsupported("call depth exceeded")
+        if fn.cache is not None and args and isinstance(args[0], Instance) and not getattr(self, "_in_cached_call", None) == (id(fn), id(args[0])):
+            return self._call_cached(fn, args, kwargs)
         fr = Frame(fn, fn.env, fn.module)
         self.bind_args(fn, fr, args, kwargs)
         self.call_depth += 1
@@ -953,6 +957,68 @@ class Interp:
         finally:
             self.frames.pop()
             self.call_depth -= 1
+
+    # decorators that leave the behaviour of the decorated function unchanged (compilation, registration,
+    # documentation) or whose semantics the interpreter implements (properties, class/static methods, caches)
+    TRANSPARENT_DECORATORS = {
+        "jit", "njit", "register_jitable", "compile_function", "register_operator", "fill_in_docstring", "abstractmethod",
+        "wraps", "property", "setter", "classmethod", "staticmethod", "cached_method", "cached_property", "hybridmethod",
+        "nb_overload", "overload",
+    }
+
+    def _check_decorators(self, fn):
+        for d in getattr(fn.node, "decorator_list", []):
+            f = d.func if isinstance(d, ast.Call) else d
+            name = ast.unparse(f).split(".")[-1]
+            if name not in self.TRANSPARENT_DECORATORS:
+                raise Unsupported(f"decorator @{ast.unparse(f)} on {fn.qualname} is not modelled")
+            if fn.cache is None or name not in ("cached_method", "cached_property"):
+                self.dropped.add("@" + ast.unparse(f))
+
+    def _call_cached(self, fn, args, kwargs):
+        """semantics of pde.tools.cache.cached_method / cached_property (dictionary cache stored in
+        obj._cache_methods[name], key = arguments (+ extra_args attributes)): the first call computes, later
+        calls with an equal key return the stored object, whatever has happened to the instance meanwhile"""
+        obj, c = args[0], fn.cache
+        if c["factory"] is not None:
+            raise Unsupported(f"cache with a factory on {fn.qualname}")
+        store = obj.attrs.get("_cache_methods")
+        if not isinstance(store, dict):
+            store = {}
+            obj.attrs["_cache_methods"] = store
+        cache = store.setdefault(c["name"], {})
+        kw = {k: v for k, v in kwargs.items() if k not in c["ignore_args"]}
+        parts = [tuple(args[1:]), tuple(sorted(kw.items()))] + [self.getattr(obj, a) for a in c["extra_args"]]
+
+        def freeze(v):
+            if isinstance(v, (list, tuple)):
+                return tuple(freeze(x) for x in v)
+            if isinstance(v, dict):
+                return tuple(sorted((k, freeze(x)) for k, x in v.items()))
+            if v is None or isinstance(v, (bool, int, str, Fraction)):
+                return v
+            unknown.append(v)
+            return ("?", len(unknown))
+
+        unknown = []
+        key = freeze(parts)
+        if unknown:
+            # the key depends on values whose hash (pde.tools.cache.hash_mutable) is not modelled: a call on an
+            # empty cache certainly computes; whether a later call hits or misses cannot be decided here
+            if cache:
+                raise Unsupported(f"cache key of {fn.qualname} is not concrete ({unknown[0]!r}) and the cache is not empty")
+        elif any(isinstance(k, tuple) and "?" in repr(k) for k in cache):
+            raise Unsupported(f"cache of {fn.qualname} holds an entry with an unmodelled key")
+        if key in cache and not unknown:
+            return cache[key]
+        prev = getattr(self, "_in_cached_call", None)
+        self._in_cached_call = (id(fn), id(obj))
+        try:
+            result = self.call_function(fn, args, kwargs)
+        finally:
+            self._in_cached_call = prev
+        cache[key] = result
+        return result
 
     def bind_args(self, fn, fr, args, kwargs):
         a = fn.node.args
